@@ -174,6 +174,34 @@ theorem decodeUncompressed_spec {s : Bytes} (st : St) (p : Nat) (out : Bytes) (h
 theorem and_three (n : Nat) (h : n < 3) : n &&& 3 = n := by
   rw [show (3 : Nat) = 2 ^ 2 - 1 from rfl, Nat.and_two_pow_sub_one_eq_mod]; omega
 
+theorem nbits_check (bits n : Nat) (hn : n < 8) (hb : bits < 2 ^ n) : ¬ (n ≥ 8 ∨ bits >>> (n &&& 7) ≠ 0) := by
+  intro hc
+  rcases hc with hc | hc
+  · omega
+  · apply hc
+    rw [show (7 : Nat) = 2 ^ 3 - 1 from rfl, Nat.and_two_pow_sub_one_eq_mod, Nat.mod_eq_of_lt (by omega),
+      Nat.shiftRight_eq_div_pow]
+    exact Nat.div_eq_of_lt hb
+
+/-- `decode_huffman_slow` on a state whose tables implement the codes `hl`, `hd`: the two `inconsistent n_bits`
+    guards pass and the loop follows the specification to the end of the block -/
+theorem decodeHuffmanSlow_spec {s : Bytes} (st2 : St) (hl hd : Huff) (ht : TablesFor st2 hl hd) (minL minD q : Nat)
+    (hinv : StInv s st2 q) (p1 : Nat) (out1 : Bytes)
+    (h : huffBlock hl hd minL minD s none 0 (8 * s.size + 1) q st2.out = .next p1 out1) :
+    ∃ st', decodeHuffmanSlow s (8 * s.size + 1) { st2 with endOfBlock := false } = .ok st' ∧ StInv s st' p1 ∧
+      st'.out = out1 := by
+  obtain ⟨b', k1, k2, k3, _⟩ := slowLoop_spec (s := s) { st2 with endOfBlock := false } hl hd
+    ⟨ht.ok0, ht.ok1, ht.ag0, ht.ag1, ht.nb0, ht.nb1, ht.ml, ht.md⟩ minL minD 0 (8 * s.size + 1) q st2.out
+    { bits := st2.bits, nBits := st2.nBits, ri := st2.ri } p1 out1 hinv.br hinv.n8 h
+  have hlt := hinv.br.bits_lt
+  simp only at hlt
+  unfold decodeHuffmanSlow
+  dsimp only
+  rw [if_neg (nbits_check _ _ hinv.n8 hlt), k1]
+  dsimp only
+  rw [if_neg (nbits_check _ _ k3 k2.bits_lt)]
+  exact ⟨_, rfl, ⟨k2, k3, hinv.s0, hinv.s1⟩, rfl⟩
+
 /-- **One block of any of the three kinds.** -/
 theorem decodeBlock_spec {s : Bytes} (hdyn : DynRefines s) (st : St) (p : Nat) (out : Bytes) (hr : Reach s p out)
     (hi : StInv s st p) (ho : st.out = out) (ha : ¬ avail s p < 3) (p1 : Nat) (out1 : Bytes)
@@ -225,28 +253,15 @@ theorem decodeBlock_spec {s : Bytes} (hdyn : DynRefines s) (st : St) (p : Nat) (
       obtain ⟨st2, g1, g2, g3, g4, g5, g6, g7, g8⟩ := initFixedHuffman_spec
         { st1 with bits := st1.bits >>> 3, nBits := st1.nBits - 3 } hi3.s0 hi3.s1
       simp only [g1]
-      have hb2 : BRInv s { bits := st2.bits, nBits := st2.nBits, ri := st2.ri } (p + 3) := by
-        rw [g3, g4, g5]; exact hd3
-      obtain ⟨b', k1, k2, k3, k4⟩ := slowLoop_spec (s := s) { st2 with endOfBlock := false } fixedLit fixedDist
-        ⟨g2.ok0, g2.ok1, g2.ag0, g2.ag1, g2.nb0, g2.nb1, g2.ml, g2.md⟩ 7 5 0 (8 * s.size + 1) (p + 3) out
-        { bits := st2.bits, nBits := st2.nBits, ri := st2.ri } p1 out1 hb2 (by simp only; rw [g4]; omega) h
-      unfold decodeHuffmanSlow
-      have hlt2 := hb2.bits_lt
-      simp only at hlt2
-      have hsh : ∀ (bits n : Nat), n < 8 → bits < 2 ^ n → ¬ (n ≥ 8 ∨ bits >>> (n &&& 7) ≠ 0) := by
-        intro bits n hn hb hc
-        rcases hc with hc | hc
-        · omega
-        · apply hc
-          rw [show (7 : Nat) = 2 ^ 3 - 1 from rfl, Nat.and_two_pow_sub_one_eq_mod, Nat.mod_eq_of_lt (by omega),
-            Nat.shiftRight_eq_div_pow]
-          exact Nat.div_eq_of_lt hb
-      rw [if_neg (hsh _ _ (by rw [g4]; simp only; omega) hlt2)]
-      simp only [g6, ho, f5] at k1 ⊢
-      rw [show st2.out = out by rw [g6]; simp only; rw [f5, ho]] at *
-      simp only [k1]
-      rw [if_neg (hsh _ _ k3 k2.bits_lt)]
-      exact ⟨_, rfl, ⟨k2, k3, g7, g8⟩, rfl⟩
+      have hinv2 : StInv s st2 (p + 3) := by
+        refine ⟨?_, ?_, g7, g8⟩
+        · rw [g3, g4, g5]; exact hd3
+        · rw [g4]; show st1.nBits - 3 < 8; omega
+      have ho2 : st2.out = out := by rw [g6]; show st1.out = out; rw [f5, ho]
+      rw [← ho2] at h
+      obtain ⟨st', e1, e2, e3⟩ := decodeHuffmanSlow_spec st2 fixedLit fixedDist g2 7 5 (p + 3) hinv2 p1 out1 h
+      simp only [e1]
+      exact ⟨st', rfl, e2, e3⟩
     · rw [if_neg t1] at h ⊢
       by_cases t2 : bitsLE s (p + 1) 2 = 2
       · rw [if_pos t2] at h ⊢
@@ -258,26 +273,11 @@ theorem decodeBlock_spec {s : Bytes} (hdyn : DynRefines s) (st : St) (p : Nat) (
           simp only at h
           obtain ⟨st2, g1, g2, g3, g4⟩ := hdyn p out _ hl hd minL q hr ha t2 hi3 hh
           simp only [g1]
-          obtain ⟨b', k1, k2, k3, k4⟩ := slowLoop_spec (s := s) { st2 with endOfBlock := false } hl hd
-            ⟨g4.ok0, g4.ok1, g4.ag0, g4.ag1, g4.nb0, g4.nb1, g4.ml, g4.md⟩ minL hd.minLen 0 (8 * s.size + 1) q out
-            { bits := st2.bits, nBits := st2.nBits, ri := st2.ri } p1 out1 g2.br g2.n8 h
-          unfold decodeHuffmanSlow
-          have hsh : ∀ (bits n : Nat), n < 8 → bits < 2 ^ n → ¬ (n ≥ 8 ∨ bits >>> (n &&& 7) ≠ 0) := by
-            intro bits n hn hb hc
-            rcases hc with hc | hc
-            · omega
-            · apply hc
-              rw [show (7 : Nat) = 2 ^ 3 - 1 from rfl, Nat.and_two_pow_sub_one_eq_mod, Nat.mod_eq_of_lt (by omega),
-                Nat.shiftRight_eq_div_pow]
-              exact Nat.div_eq_of_lt hb
-          have hlt2 := g2.br.bits_lt
-          simp only at hlt2
-          rw [if_neg (hsh _ _ g2.n8 hlt2)]
-          have ho2 : st2.out = out := by rw [g3]; simp only; rw [f5, ho]
-          rw [ho2] at *
-          simp only [k1]
-          rw [if_neg (hsh _ _ k3 k2.bits_lt)]
-          exact ⟨_, rfl, ⟨k2, k3, g2.s0, g2.s1⟩, rfl⟩
+          have ho2 : st2.out = out := by rw [g3]; show st1.out = out; rw [f5, ho]
+          rw [← ho2] at h
+          obtain ⟨st', e1, e2, e3⟩ := decodeHuffmanSlow_spec st2 hl hd g4 minL hd.minLen q g2 p1 out1 h
+          simp only [e1]
+          exact ⟨st', rfl, e2, e3⟩
       · rw [if_neg t2] at h; simp at h
 
 /-! ### the block loop -/
@@ -301,7 +301,7 @@ theorem decodeBlocks_spec {s : Bytes} (hdyn : DynRefines s) : ∀ (fuel : Nat) (
         simp only [Result.mk.injEq] at h
         obtain ⟨h1, h2, h3⟩ := h
         -- a block that stops never stops with `done`
-        exact absurd h1.symm (specBlock_stop s p out stt q o hb)
+        exact absurd h1 (specBlock_stop s p out stt q o hb)
       | next p1 out1 =>
         rw [hb] at h
         simp only at h
